@@ -357,7 +357,7 @@ impl Property for C19 {
 
     fn assumptions() -> Vec<String> {
         vec![
-            "grey zones not asserted: pushes that start like DER (0x30…) but are not canonical under OP_SIG; inputs without a value combined with value criteria (all inputs carry values when a value criterion is present)".into(),
+            "grey zones not asserted: pushes that start like DER (0x30…) but are not canonical under OP_SIG; (inputs without a value are generated: a value that is not known satisfies no bound; OP_0 is the push of no data for the data tokens)".into(),
             "known finding asm-digit-push (shared with C17): an exact one-byte push 0x10..0x16 is written as a token that reads back as OP_10..OP_16; remapped by the generator in 85% of the cases".into(),
         ]
     }
